@@ -11,6 +11,7 @@ import (
 	"github.com/innovationb1ue/RedisGO/util"
 	"pgregory.net/rapid"
 
+	"verifharness/globref"
 	"verifharness/inproc"
 	"verifharness/kit"
 )
@@ -35,7 +36,7 @@ type pair struct {
 
 func checkPair(c pair) kit.Outcome {
 	p, s := string(c.Pattern), string(c.Subject)
-	defined, want := Expect(p, s)
+	defined, want := globref.Expect(p, s)
 	got, pan := safeMatch(p, s)
 	o := kit.Outcome{}
 	if pan != "" {
@@ -91,25 +92,25 @@ func TestExhaustive(t *testing.T) {
 		if idx%shards != shard {
 			return
 		}
-		toks, cls := Parse(p)
+		toks, cls := globref.Parse(p)
 		meta := strings.ContainsAny(p, "*?[\\")
 		for _, s := range subjects {
 			evals++
 			got, pan := safeMatch(p, s)
 			var want bool
 			switch cls {
-			case Unspecified:
+			case globref.Unspecified:
 				unspec++
 				if pan == "" {
 					continue
 				}
-			case Broken:
+			case globref.Broken:
 				broken++
 				want = false
 			default:
-				want = Match(toks, s)
+				want = globref.Match(toks, s)
 			}
-			if meta && cls != Unspecified {
+			if meta && cls != globref.Unspecified {
 				nt++
 			}
 			if pan != "" || got != want {
@@ -187,7 +188,7 @@ func genSubject(t *rapid.T) string {
 // finishes quickly and the code under test has not finished 10 s later, matching "does not terminate".
 func execLong(c pair) kit.Outcome {
 	start := time.Now()
-	Expect(string(c.Pattern), string(c.Subject))
+	globref.Expect(string(c.Pattern), string(c.Subject))
 	if time.Since(start) > 100*time.Millisecond {
 		return kit.Outcome{Inconclusive: true, Labels: []string{"reference-slow"}}
 	}
@@ -224,12 +225,12 @@ func execKeys(c keysCase) kit.Outcome {
 		live[string(k)] = true
 	}
 	p := string(c.Pattern)
-	_, cls := Parse(p)
+	_, cls := globref.Parse(p)
 	r := db.Do([][]byte{[]byte("KEYS"), []byte(p)})
 	if r.Panic != "" {
 		return kit.Outcome{Fail: fmt.Sprintf("KEYS %q panicked: %s", p, r.Panic)}
 	}
-	if cls == Unspecified {
+	if cls == globref.Unspecified {
 		return kit.Outcome{Labels: []string{"unspecified"}}
 	}
 	if r.DecErr != nil || r.Val.Kind != '*' || r.Val.Null {
@@ -240,7 +241,7 @@ func execKeys(c keysCase) kit.Outcome {
 		got = append(got, string(e.Str))
 	}
 	for k := range live {
-		if d, w := Expect(p, k); d && w {
+		if d, w := globref.Expect(p, k); d && w {
 			want = append(want, k)
 		}
 	}
